@@ -33,6 +33,18 @@ def run(c):
                 rw.skip_fields.add(mp[l])
                 c.oracle_fail(l, "documented form 'mask bit set, field omitted = empty value' is accepted by ReadJSON but the value makes WriteJSON panic "
                                  "(nil pointer for the recursive field)", l)
+        # replay: structured inputs of earlier failures first
+        rcases, rplain = [], set()
+        for x in cj.replay_lines(c):
+            if isinstance(x, dict) and x.get("line", "").split(" ")[1:2] == [sc.sid]:
+                ls = {x["line"], x["canon"]} | ({x["other"]} if x.get("other") else set())
+                rcases.append({"xj": x["line"], "tl2": x.get("tl2", bool(sc.tl2)), "canon": x["canon"],
+                               "checks": [(x["rule"], x["expect"], x["line"], x.get("other"))], "lines": ls})
+            elif isinstance(x, str) and x.split(" ")[1:2] == [sc.sid]:
+                rplain.add(x)   # a line of a broken tie: re-run for the model/implementation comparison only
+        if rcases or rplain:
+            rl = sorted({l for cs in rcases for l in cs["lines"]} | rplain)
+            cj.oracle_c06(c, rcases, {l: a for l, a, _ in c.tie("replay:" + sc.sid, rl, sc.impl, model, prefix=pre)})
         lines = []
         for inst, it in items:
             if inst["tlname"] in skip:
